@@ -40,7 +40,7 @@ Case(t) == [hdr |-> t.hdr, rows |-> t.rows,
   cut |-> SetToSeq({[spec |-> sp, out |-> Cut(t, sp, 0), outm |-> Cut(t, sp, 9), cutout |-> Cutout(t, sp, 0)] : sp \in Specs(t.hdr)}),
   addfield |-> SetToSeq({[index |-> ix, out |-> AddField(t, "z", V, ix)] : ix \in Indexes}),
   movefield |-> SetToSeq({[name |-> nm, index |-> ix, out |-> MoveField(t, nm, ix, 0)] : nm \in {"a", "b"}, ix \in {0, 1, 2, 5, -1}}),
-  rownumbers |-> AddRowNumbers(t, 5, 2),
+  rownumbers |-> AddRowNumbers(t, 100, 7),
   addcolumn |-> SetToSeq({[index |-> ix, col |-> col, out |-> AddColumn(t, "z", col, ix, 0)] : ix \in {99, 0, 1}, col \in {<<>>, <<61>>, <<61, 62, 63>>}}),
   cat |-> Cat(t, T2, 0), cat9 |-> Cat(t, T2, 9), cathdr |-> CatHeader(t, T2, <<"c", "a", "x">>, 0),
   stack |-> Stack(t, T2, 0), stack9 |-> Stack(t, T2, 9), annex |-> Annex(t, T2, 0), annexr |-> Annex(T2, t, 9),
